@@ -28,11 +28,25 @@ fn cases(max_irregular: usize) -> Vec<HelloCase> {
     ];
     // the last group: capabilities that look like a base capability but are not one (the YANG module of RFC 6241,
     // other version strings)
-    let extras: [&[&str]; 4] = [
+    let extras: [&[&str]; 5] = [
         &[],
         &["urn:ietf:params:netconf:capability:candidate:1.0", "http://xml.juniper.net/netconf/junos/1.0"],
         &["urn:example:unknown:1.0"],
         &["urn:ietf:params:xml:ns:netconf:base:1.0?module=ietf-netconf&amp;revision=2011-06-01", "urn:ietf:params:netconf:base:1.0.1", "urn:ietf:params:netconf:base:10", "urn:ietf:params:netconf:capability:base:1.0"],
+        // capabilities with parameters, as other servers (IOS-XE, ConfD, netopeer2) advertise them
+        &[
+            "urn:ietf:params:netconf:capability:with-defaults:1.0?basic-mode=explicit&amp;also-supported=report-all-tagged,trim",
+            "urn:ietf:params:netconf:capability:with-defaults:1.0?basic-mode=report-all",
+            "urn:ietf:params:netconf:capability:url:1.0?scheme=file,ftp,sftp,scp",
+            "urn:ietf:params:netconf:capability:notification:1.0",
+            "urn:ietf:params:netconf:capability:interleave:1.0",
+            "urn:ietf:params:netconf:capability:yang-library:1.1?revision=2019-01-04&amp;content-id=61",
+            "urn:ietf:params:netconf:capability:validate:1.1",
+            "urn:ietf:params:netconf:capability:xpath:1.0",
+            "urn:ietf:params:netconf:capability:confirmed-commit:1.1",
+            "urn:ietf:params:xml:ns:yang:ietf-netconf-monitoring?module=ietf-netconf-monitoring&amp;revision=2010-10-04",
+            "http://cisco.com/ns/yang/Cisco-IOS-XE-native?module=Cisco-IOS-XE-native&amp;revision=2019-11-01&amp;features=a,b&amp;deviations=c",
+        ],
     ];
     // (elements, Some(valid id), description)
     let ids: Vec<(Vec<&str>, Option<u32>, &str)> = vec![
